@@ -138,6 +138,8 @@ def observe(method, st, hd, text):
         o["body"] = text if st == 200 else None
     elif method in ("PUT", "DELETE", "MOVE"):
         o["etag"] = hd.get("ETag")
+    elif method == "REPORT" and st == 200:
+        o["body"] = "\n".join(sorted(ln for ln in text.split("\r\n") if not ln.startswith(("DTSTAMP", "PRODID"))))       # (free-busy answer)
     elif st == 207:
         root = ET.fromstring(text)
         rows = []
@@ -377,8 +379,23 @@ def run_history(ctx, rng, hid, length):
                 p.reads(events, served=served)
                 nontrivial = True
             elif k < 0.54:
-                r, events = p.both("PROPFIND", base, PROPFIND, HTTP_DEPTH="1")
+                # the other ways of reading a collection: listing, whole-collection export, sync-collection, multiget with data, free-busy
+                way = rng.choice(["propfind", "propfind", "export", "sync", "multiget", "freebusy"])
+                if way == "propfind":
+                    r, events = p.both("PROPFIND", base, PROPFIND, HTTP_DEPTH="1")
+                elif way == "export":
+                    r, events = p.both("GET", base)
+                elif way == "sync":
+                    r, events = p.both("REPORT", base, '<?xml version="1.0"?><D:sync-collection xmlns:D="DAV:"><D:sync-token/><D:prop><D:getetag/></D:prop>'
+                                       '</D:sync-collection>')
+                elif way == "multiget":
+                    r, events = p.both("REPORT", base, '<?xml version="1.0"?><C:calendar-multiget xmlns:D="DAV:" xmlns:C="urn:ietf:params:xml:ns:caldav"><D:prop>'
+                                       '<D:getetag/><C:calendar-data/></D:prop>%s</C:calendar-multiget>' % "".join("<D:href>%s%s</D:href>" % (base, h) for h in HREFS))
+                else:
+                    r, events = p.both("REPORT", base, '<?xml version="1.0"?><C:free-busy-query xmlns:C="urn:ietf:params:xml:ns:caldav">'
+                                       '<C:time-range start="20000101T000000Z" end="20500101T000000Z"/></C:free-busy-query>')
                 p.reads(events)
+                nontrivial = way != "propfind"
             elif k < 0.6:
                 href = rng.choice(HREFS)
                 r, events = p.both("DELETE", base + href)
